@@ -242,7 +242,7 @@ def write (l : Layer) (rest : List Layer) (inner : Bytes) (parent : Option Layer
         | some sz => zeros ((if paddedInner innerSz 8 > 128 then paddedInner innerSz 8 else 128) - sz))
       ++ writeExtStruct exts
     icmp6Tail (match parent with | some p => parentOf p | none => .other) (hdr ++ inner ++ tail) totalSz
-  | .raw d => d
+  | .raw d => d ++ inner
   | .pppoe code sess plen tags =>
     let tagsSize := headerSize l - 6
     let plen := if tagsSize > 0 ∨ !rest.isEmpty then totalSz - 6 else plen
@@ -285,8 +285,19 @@ def layerSizes : List Layer → List (String × Nat × Nat)
   | [] => []
   | l :: rest => (l.kind, headerSize l, trailerSize l (if rest.isEmpty then none else some (size rest))) :: layerSizes rest
 
-def serializeTop (ls : List Layer) : Option (Bytes × List (String × Nat × Nat)) :=
-  if ls.isEmpty || !ls.all kindModelled || !ls.all optsModelled then none
-  else some (serialize ls none, layerSizes ls)
+/-- `TCP::write_serialization` throws `serialization_error` when the data offset does not fit its 4 bits -/
+def tcpThrows : Layer → Bool
+  | .tcp _ _ _ _ _ _ _ opts => (20 + pad4 (tcpOptSize opts)) / 4 > 15
+  | _ => false
+
+inductive Out where
+  | ok (bytes : Bytes) (sizes : List (String × Nat × Nat))
+  | throw (exc : String)
+  | unmodelled
+
+def serializeTop (ls : List Layer) : Out :=
+  if ls.isEmpty || !ls.all kindModelled || !ls.all optsModelled then .unmodelled
+  else if ls.any tcpThrows then .throw "serialization_error"
+  else .ok (serialize ls none) (layerSizes ls)
 
 end Tins.Ck.Ser
